@@ -1,11 +1,15 @@
 #!/bin/sh
 # Compiles the generated code and its tie proofs in dependency order (single files, no make); prints wall times.
 # usage: cd /verif/coq && sh Proofs/GenTie.build.sh [first-file-to-start-from]
+# The files of the second round start at Gen/PreludeExt and depend on the first round, never the other way:
+#   sh Proofs/GenTie.build.sh Gen/PreludeExt    rebuilds the second round only.
 cd "$(dirname "$0")/.." || exit 1
 FILES="Gen/Prelude Gen/LinalgInternal Gen/Linalg Gen/Knotvector Gen/Helpers
 Proofs/GenTieLib Proofs/GenTieKnots Proofs/GenTieSpan Proofs/GenTieBasis Proofs/GenTieBasisOne Proofs/GenTieDersOne
 Proofs/GenTieDersLib Proofs/GenTieDers Proofs/GenTieKnotIns Proofs/GenTieSums Proofs/GenTieLinAlg Proofs/GenTieSubst
-Proofs/GenTieLU Proofs/GenTieLUSolve Proofs/GenTieKnotRem Proofs/GenTieDegree"
+Proofs/GenTieLU Proofs/GenTieLUSolve Proofs/GenTieKnotRem Proofs/GenTieDegree
+Gen/PreludeExt Gen/LinalgGeom Gen/Voxelize Gen/Utilities Gen/LinalgMat
+Proofs/GenTieLib2 Proofs/GenTieGeom Proofs/GenTieVoxel Proofs/GenTieBBox Proofs/GenTieHull"
 start="$1"; go=1; [ -n "$start" ] && go=0
 for f in $FILES; do
   [ "$f" = "$start" ] && go=1
